@@ -1,4 +1,114 @@
+(* C20_Properties.v — the property theorems of C20 (statements only; proofs are in C20_Proofs.v).
+   Scope assumptions carried by the statements: the sub-filesystem was created with a NON-EMPTY base
+   (an empty base is "default relative path": PathCat passes everything through unvalidated, by
+   design) of fewer than 2^32 bytes.  Confinement is lexical. *)
 From Coq Require Import ZArith List.
 From PV Require Import C20.C20_Model C20.C20_Proofs.
-Theorem c20_placeholder : True. Proof. exact placeholder. Qed.
-Print Assumptions c20_placeholder.
+Import ListNotations.
+Local Open Scope Z_scope.
+
+(* Whatever PathCat forwards is base ++ path (base with its trailing '/'), every prefix of the
+   path's component list has depth >= 0, and the lexical resolution of the forwarded string is
+   the resolution of the base followed by ordinary names only. *)
+Theorem no_escape : forall st base fs path fwd,
+  base <> [] -> slen base < 4294967296 ->
+  subfs_init st base = InitOk fs ->
+  pathcat fs path = PcOk (PStr fwd) ->
+    fwd = base_path fs ++ path
+    /\ (base_path fs = base \/ base_path fs = base ++ [SLASH])
+    /\ slen fwd < PATH_MAX - 2
+    /\ (forall k, 0 <= depth (firstn k (components path)))
+    /\ is_abs fwd = is_abs base
+    /\ exists below, Forall proper below /\ resolve fwd = resolve base ++ below
+                     /\ Z.of_nat (length below) = depth (components path).
+Proof. exact no_escape_lemma. Qed.
+Print Assumptions no_escape.
+
+(* ... and no intermediate step of the resolution leaves the base either. *)
+Theorem no_escape_every_prefix : forall st base fs path fwd k,
+  base <> [] -> slen base < 4294967296 ->
+  subfs_init st base = InitOk fs ->
+  pathcat fs path = PcOk (PStr fwd) ->
+  exists below, Forall proper below /\
+    rev (resolve_from (is_abs base) [] (components base ++ firstn k (components path)))
+    = resolve base ++ below.
+Proof. exact no_escape_every_prefix_lemma. Qed.
+Print Assumptions no_escape_every_prefix.
+
+(* Conversely: a path within the length limit whose every component prefix stays at or below
+   the base is accepted and forwarded unchanged apart from the base prefix. *)
+Theorem accepts_legal : forall fs path,
+  base_path fs <> [] ->
+  slen path + base_path_len fs < PATH_MAX - 2 ->
+  (forall k, 0 <= depth (firstn k (components path))) ->
+  pathcat fs path = PcOk (PStr (base_path fs ++ path)).
+Proof. exact accepts_legal_unfolded. Qed.
+Print Assumptions accepts_legal.
+
+(* Everything else is rejected (nullptr forwarded); PathCat never hits the model's error values
+   (loop fuel, int overflow of the level counter). *)
+Theorem rejects_illegal : forall fs path,
+  base_path fs <> [] -> ~ legal fs path -> pathcat fs path = PcOk PNull.
+Proof. exact rejects_illegal_lemma. Qed.
+Print Assumptions rejects_illegal.
+
+Theorem pathcat_never_stuck : forall fs path, exists a, pathcat fs path = PcOk a.
+Proof. exact C20_Proofs.pathcat_never_stuck. Qed.
+Print Assumptions pathcat_never_stuck.
+
+(* Every path-taking operation (32 of them, xattr and two-path ones included): the underlay is
+   called with the same operation, and each path argument that PathCat guards is either nullptr or
+   confined.  symlink guards only `newname`; `oldname` (the link's content) is passed as is. *)
+Theorem all_ops_confined : forall st xa base fs o p1 p2,
+  base <> [] -> slen base < 4294967296 -> subfs_init st base = InitOk fs ->
+  match run_op xa fs o p1 p2 with
+  | CallError _ => False
+  | NoCall => op_kind o = OneXattr /\ xa = false
+  | Call o' args =>
+    o' = o /\
+    match op_kind o with
+    | TwoBoth => exists a1 a2, args = [a1; a2] /\ confined_arg fs base p1 a1 /\ confined_arg fs base p2 a2
+    | TwoNew => exists a2, args = [PStr p1; a2] /\ confined_arg fs base p2 a2
+    | _ => exists a1, args = [a1] /\ confined_arg fs base p1 a1
+    end
+  end.
+Proof. exact all_ops_confined_lemma. Qed.
+Print Assumptions all_ops_confined.
+
+Theorem all_ops_accept_legal : forall xa fs o p1 p2,
+  base_path fs <> [] ->
+  (op_kind o <> TwoNew -> legal fs p1) ->
+  (op_kind o = TwoBoth \/ op_kind o = TwoNew -> legal fs p2) ->
+  (op_kind o = OneXattr -> xa = true) ->
+  run_op xa fs o p1 p2 =
+    match op_kind o with
+    | TwoBoth => Call o [PStr (base_path fs ++ p1); PStr (base_path fs ++ p2)]
+    | TwoNew => Call o [PStr p1; PStr (base_path fs ++ p2)]
+    | _ => Call o [PStr (base_path fs ++ p1)]
+    end.
+Proof. exact all_ops_accept_legal_lemma. Qed.
+Print Assumptions all_ops_accept_legal.
+
+(* Path::level_valid itself, for every string shorter than 2^31 bytes: it terminates, the int
+   counter does not overflow, and it answers exactly "no component prefix goes below 0". *)
+Theorem level_valid_total : forall path, slen path <= INT_MAX ->
+  (level_valid path = LvTrue /\ (forall k, 0 <= depth (firstn k (components path)))) \/
+  (level_valid path = LvFalse /\ exists k, depth (firstn k (components path)) < 0).
+Proof. exact level_valid_total_lemma. Qed.
+Print Assumptions level_valid_total.
+
+(* Finding F1 (repaired by repo_patches/C20-fix-level-valid.diff): the pre-fix validator refused
+   legal paths — witness "a/.." — while the repaired one accepts them. *)
+Theorem accepts_legal_prefix_refuted :
+  exists path, slen path < 10 /\ (forall k, 0 <= depth (firstn k (components path))) /\
+               level_valid_prefix path = LvFalse /\ level_valid path = LvTrue.
+Proof. exact accepts_legal_prefix_refuted_lemma. Qed.
+Print Assumptions accepts_legal_prefix_refuted.
+
+(* The pre-fix validator was safe (never accepted an escaping path); the repair only accepts more. *)
+Theorem prefix_was_safe : forall path,
+  level_valid_prefix path = LvTrue ->
+  (forall k, 0 <= depth (firstn k (components path))) /\
+  (slen path <= INT_MAX -> level_valid path = LvTrue).
+Proof. exact prefix_was_safe_lemma. Qed.
+Print Assumptions prefix_was_safe.
